@@ -133,79 +133,100 @@ def check_contract(cls, models_iter, budget, stats, failures, max_fail=5):
     key = f'{path}:{qualname}'
     st = stats.setdefault(key, {'evaluations': 0, 'pre_rejected': 0, 'distinct_inputs': 0, 'clauses': [n for n, _ in posts]})
     import itertools
+    from standin.props.common import snapshot
+    pure = not getattr(cls, 'modifies', ())
+    rng = random.Random(12345)
+    count = 0
     for desc in models_iter:
         if st['evaluations'] >= budget:
             break
         model = M.build_model(desc)
-        pp = param_pools(model, owner, func, cls)
-        if pp is None:
+        count += 1
+        rounds = [None]
+        if count % 4 == 0 and not getattr(cls, 'models', None):
+            rounds = [None, 'edit', 'edit']      # histories: query, edit in place, query again
+        for rnd in rounds:
+          if rnd == 'edit':
+            try:
+                what = M.edits(model, rng)
+            except Exception:
+                what = None
+            if what is None or not spec_tree.wf_model(model):
+                break
+            desc = M.describe_model(model)
+            desc['_history'] = f'model object queried before, then edited in place: {what}'
+          pp = param_pools(model, owner, func, cls)
+          if pp is None:
             st['skipped'] = 'no generator for some parameter'
             return
-        names, pools = pp
-        for combo in itertools.product(*pools):
-            args = dict(zip(names, combo))
-            st['distinct_inputs'] += 1
-            try:
-                if pre is not None and not pre(**{k: args[k] for k in inspect.signature(pre).parameters}):
-                    st['pre_rejected'] += 1
-                    continue
-            except Exception:
-                st['pre_rejected'] += 1
-                continue
-            # inputs inside a recorded known-finding region: a few are run (so that the finding is observed or reported
-            # stale), the rest are skipped -- they carry no information and may be slow
-            kn_pre = None
-            for n, f in known:
-                try:
-                    if f(**{k: args[k] for k in inspect.signature(f).parameters}):
-                        kn_pre = n[len('known_'):]
-                        break
-                except Exception:
-                    pass
-            if kn_pre is not None:
-                st.setdefault('known_region_inputs', {}).setdefault(kn_pre, 0)
-                st['known_region_inputs'][kn_pre] += 1
-                if st['known_region_inputs'][kn_pre] > 3:
-                    continue
-            st['evaluations'] += 1
-            fail = None
-            try:
-                with time_limit(CALL_LIMIT_S):
-                    result = raw(*combo)
-            except CallTimeout:
-                fail = {'clause': 'noraise', 'exception': f'call did not return within {CALL_LIMIT_S}s on a small model (non-termination?)'}
-                result = None
-            except Exception as e:  # noqa: BLE001
-                if type(e).__name__ in allowed:
-                    continue
-                fail = {'clause': 'noraise', 'exception': f'{type(e).__name__}: {e}'}
-                result = None
-            if fail is None:
-                for n, f in posts:
-                    ps = inspect.signature(f).parameters
-                    kw = {k: (result if k == 'result' else args[k]) for k in ps}
-                    try:
-                        ok = f(**kw)
-                    except Exception as e:  # noqa: BLE001
-                        ok = False
-                        fail = {'clause': n, 'exception': f'contract evaluation raised {type(e).__name__}: {e}'}
-                        break
-                    if not ok:
-                        fail = {'clause': n, 'result': repr(result)[:300]}
-                        break
-            if fail is not None:
-                kn = None
-                for n, f in known:
-                    try:
-                        if f(**{k: args[k] for k in inspect.signature(f).parameters}):
-                            kn = n[len('known_'):]
-                            break
-                    except Exception:
-                        pass
-                fail.update(function=key, contract=cls.__name__, prop=cls._prop, model=desc,
-                            args={k: describe_arg(v, model) for k, v in args.items()}, known=kn)
-                if sum(1 for x in failures if x['function'] == key and x['known'] == kn) < max_fail:
-                    failures.append(fail)
+          names, pools = pp
+          for combo in itertools.product(*pools):
+              args = dict(zip(names, combo))
+              st['distinct_inputs'] += 1
+              try:
+                  if pre is not None and not pre(**{k: args[k] for k in inspect.signature(pre).parameters}):
+                      st['pre_rejected'] += 1
+                      continue
+              except Exception:
+                  st['pre_rejected'] += 1
+                  continue
+              # inputs inside a recorded known-finding region: a few are run (so that the finding is observed or reported
+              # stale), the rest are skipped -- they carry no information and may be slow
+              kn_pre = None
+              for n, f in known:
+                  try:
+                      if f(**{k: args[k] for k in inspect.signature(f).parameters}):
+                          kn_pre = n[len('known_'):]
+                          break
+                  except Exception:
+                      pass
+              if kn_pre is not None:
+                  st.setdefault('known_region_inputs', {}).setdefault(kn_pre, 0)
+                  st['known_region_inputs'][kn_pre] += 1
+                  if st['known_region_inputs'][kn_pre] > 3:
+                      continue
+              st['evaluations'] += 1
+              fail = None
+              before = snapshot(model) if pure else None
+              try:
+                  with time_limit(CALL_LIMIT_S):
+                      result = raw(*combo)
+              except CallTimeout:
+                  fail = {'clause': 'noraise', 'exception': f'call did not return within {CALL_LIMIT_S}s on a small model (non-termination?)'}
+                  result = None
+              except Exception as e:  # noqa: BLE001
+                  if type(e).__name__ in allowed:
+                      continue
+                  fail = {'clause': 'noraise', 'exception': f'{type(e).__name__}: {e}'}
+                  result = None
+              if fail is None and pure and snapshot(model) != before:
+                  fail = {'clause': 'frame', 'result': 'the call modified its argument (deep snapshot of the model differs)'}
+              if fail is None:
+                  for n, f in posts:
+                      ps = inspect.signature(f).parameters
+                      kw = {k: (result if k == 'result' else args[k]) for k in ps}
+                      try:
+                          ok = f(**kw)
+                      except Exception as e:  # noqa: BLE001
+                          ok = False
+                          fail = {'clause': n, 'exception': f'contract evaluation raised {type(e).__name__}: {e}'}
+                          break
+                      if not ok:
+                          fail = {'clause': n, 'result': repr(result)[:300]}
+                          break
+              if fail is not None:
+                  kn = None
+                  for n, f in known:
+                      try:
+                          if f(**{k: args[k] for k in inspect.signature(f).parameters}):
+                              kn = n[len('known_'):]
+                              break
+                      except Exception:
+                          pass
+                  fail.update(function=key, contract=cls.__name__, prop=cls._prop, model=desc,
+                              args={k: describe_arg(v, model) for k, v in args.items()}, known=kn)
+                  if sum(1 for x in failures if x['function'] == key and x['known'] == kn) < max_fail:
+                      failures.append(fail)
 
 
 def describe_arg(v, model):
@@ -227,11 +248,13 @@ def describe_arg(v, model):
 def models_for(scope, seed):
     rng = random.Random(seed)
     if scope == 'quick':
+        yield from M.special_models()
         yield from M.small_models(4, all_cards=True)
         for _ in range(150):
             yield M.random_model(rng, 10)
     else:
         yield from M.small_models(5, all_cards=True)
+        yield from M.special_models()
         for _ in range(2000):
             yield M.random_model(rng, 16)
 
